@@ -1,5 +1,6 @@
 import Rivaas.Proto
 import Rivaas.Spec.Obs
+import Rivaas.Model.ObsApp
 /-
 Driver for C08. Case lines (DESIGN.md §2.9):
 
@@ -16,6 +17,13 @@ Driver for C08. Case lines (DESIGN.md §2.9):
   prog     = E <status> <size> | Q | O <size> | T <status> <size> | B <status> <size> | X <size>
   log      = <n> (S <live> | W | H <hid> <pattern> <version> | E <label> <wrapped>)^n
   recd     = 0 | 1 <status> <size>
+
+  <id> M <term 0|1> <n> (T | M | F1 | F0)^n <k> (<method> <path> <excluded> <status> <size> <label>)^k <patterns>
+       => <tele mw> <tele app> <k> (<client status> <client size>)^k
+      a history through a stack of standalone layers (tracing.Middleware, metrics.Middleware, foreign marked writers)
+      in front of a plain handler (term 0) or an app with the real recorder (term 1)
+  tele     = <spansStarted> <spansEnded> <n> (<span name> <err>)^n <gauge {}> <gauge other series> <series != 0>
+             <n> (<route> <status> <count> <size>)^n
 -/
 namespace Rivaas.DriverC08
 open Rivaas.Proto Rivaas.Serve Rivaas.Obs
@@ -234,6 +242,71 @@ def stepAW (id : String) (inp obs : List String) : String :=
     verdict id mi s "-" s!"{tele.started} {tele.ended} {tele.active} {live}"
   | _, _ => s!"{id} bad-case"
 
+/-! history through a stack of standalone middlewares (kind M) -/
+
+open Rivaas.ObsApp in
+def pLayer : P Layer := do
+  let k ← tok
+  if k == "T" then pure Layer.tracing else if k == "M" then pure Layer.metrics
+  else if k == "F1" then pure (Layer.foreign true) else if k == "F0" then pure (Layer.foreign false) else failure
+
+/-- no foreign layer hides the response (marked writer that exposes nothing) -/
+def C08StackReadable (stack : List ObsApp.Layer) : Bool := !stack.contains (ObsApp.Layer.foreign false)
+
+structure TeleObs where
+  t : ObsApp.Tele
+  nonzero : Nat
+
+def pTeleObs : P TeleObs := do
+  let st ← nat; let en ← nat
+  let spans ← list (do let nm ← str; let e ← nat; pure (nm, e))
+  let g0 ← int; let ga ← int; let nz ← nat
+  let rows ← list (do let r ← str; let s ← nat; let c ← nat; let z ← nat; pure (⟨r, s, c, z⟩ : ObsApp.Row))
+  pure ⟨{ started := st, ended := en, spans := spans, gauge0 := g0, gaugeA := ga, rows := rows }, nz⟩
+
+def sameRows (a b : List ObsApp.Row) : Bool := a.length == b.length && a.all (fun r => b.contains r)
+
+def teleEq (m : ObsApp.Tele) (o : TeleObs) : Bool :=
+  m.started == o.t.started && m.ended == o.t.ended && m.spans == o.t.spans && m.gauge0 == o.t.gauge0 &&
+  m.gaugeA == o.t.gaugeA && sameRows m.rows o.t.rows
+
+def stepM (id : String) (inp obs : List String) : String :=
+  match runP (do
+      let term ← bool
+      let stack ← list pLayer
+      let reqs ← list (do
+        let m ← str; let p ← str; let x ← bool; let st ← nat; let sz ← nat; let l ← str
+        pure (⟨m, p, x, st, sz, l⟩ : ObsApp.Req))
+      let pats ← list str
+      pure (term, stack, reqs, pats)) inp,
+    runP (do
+      let mw ← pTeleObs; let app ← pTeleObs
+      let clients ← list (do let s ← nat; let z ← nat; pure (s, z))
+      pure (mw, app, clients)) obs with
+  | some (term, stack, reqs, pats), some (mw, app, clients) =>
+    let tm := if term then ObsApp.Term.app else ObsApp.Term.mux
+    let w := ObsApp.runAll ObsApp.fixed tm stack reqs
+    let mi := teleEq w.mw mw && teleEq w.app app && clients == reqs.map (fun q => (q.status, q.size))
+    -- oracle on what was observed: idle server = every started span ended, every series of the gauge at zero (both
+    -- provider pairs); app recorder (unless a foreign layer hides the response): one row and one span per request it
+    -- did not exclude, bounded route / span name, status and size as the client received them
+    let live := (List.zip reqs clients).filter (fun qc => !qc.1.excluded)
+    let quiet (o : TeleObs) : Bool := o.t.started == o.t.ended && o.nonzero == 0
+    let allLabels := pats ++ sentinels
+    let appOK : Bool :=
+      if !term then true else
+      app.t.spans.length == live.length && (app.t.rows.foldl (fun n r => n + r.count) 0) == live.length &&
+      app.t.rows.all (fun r => labelOK pats r.route) &&
+      app.t.spans.all (fun sp => reqs.any fun q => (allLabels.filter (· != [])).any fun l => sp.1 == q.method ++ " ".toList ++ l) &&
+      (!C08StackReadable stack ||
+        ((app.t.spans.map (·.2)) == live.map (fun qc => ObsApp.errOf qc.2.1) &&
+         (app.t.rows.foldl (fun n r => n + r.size) 0) == (live.foldl (fun n qc => n + qc.2.2) 0) &&
+         (app.t.rows.map (·.status)).eraseDups.all (fun st =>
+           ((app.t.rows.filter (·.status == st)).foldl (fun n r => n + r.count) 0) == (live.filter (·.2.1 == st)).length)))
+    let s := quiet mw && quiet app && appOK
+    verdict id mi s "-" s!"{w.mw.started} {w.mw.ended} {w.mw.gauge0} {w.mw.gaugeA} {w.app.started} {w.app.ended} {w.app.gauge0}"
+  | _, _ => s!"{id} bad-case"
+
 def step (line : String) : String :=
   match splitCase line with
   | none => "? bad-line"
@@ -246,6 +319,7 @@ def step (line : String) : String :=
     | "A" :: rest => stepA id rest obs
     | "AC" :: rest => stepAC id rest obs
     | "AW" :: rest => stepAW id rest obs
+    | "M" :: rest => stepM id rest obs
     | _ => s!"{id} bad-case"
 
 end Rivaas.DriverC08
